@@ -336,6 +336,7 @@ func (fr *frame) conv(tDst, tSrc types.Type, x value) value {
 }
 
 func (fr *frame) slice(instr *ssa.Slice, x, lo, hi, max value) value {
+	fr.m.res.Implicit++
 	m := fr.m
 	var n, c int
 	var elems []value
@@ -483,6 +484,7 @@ func (fr *frame) lookup(instr *ssa.Lookup, x, idx value) value {
 // ---------------------------------------------------------------- type assertions
 
 func (fr *frame) typeAssert(instr *ssa.TypeAssert, itf iface) value {
+	fr.m.res.Implicit++
 	var v value
 	err := ""
 	if itf.t == nil {
